@@ -285,6 +285,10 @@ def conv1d(
 ) -> Tensor:
     fan_out, fan_in, kernel_size = weight.shape
     seq_len = input.shape[-1]
+    # like F.conv1d, accept 1-tuples (this is what torch.nn.Conv1d passes)
+    stride, padding, dilation = (
+        v[0] if isinstance(v, (tuple, list)) else v for v in (stride, padding, dilation)
+    )
     out_size = (seq_len + 2 * padding - dilation * (kernel_size - 1) - 1) // stride + 1
     batch_size = out_size
     if len(input.shape) > 2:
